@@ -257,7 +257,7 @@ class Gen:
   def m_dense_lead(self):
     """Dense(1) on (C, 1) / (1, C, 1) / (C, 1, 1): every size assertion passes and the large
     dimension is NOT the feature axis (the kernel is 1x1, applied at C positions); the unrepaired
-    code took np.max for both sizes (fix fff3a88)"""
+    code took np.max for both sizes (fix 174b8b4)"""
     K, Q = self.K, self.Q
     c = self.ri(2, 8)
     shape = self.ch([(c, 1), (c, 1), (1, c, 1), (c, 1, 1)])
@@ -289,7 +289,7 @@ class Gen:
     return K.Model(x_in, x), 1
 
   def qavgpool(self, x):
-    """QAveragePooling2D: counted like AveragePooling2D since fix a151cef (it used to be in no
+    """QAveragePooling2D: counted like AveragePooling2D since fix 2d53185 (it used to be in no
     branch of get_operation_count: 0)"""
     h, w, _ = [int(d) for d in x.shape[1:]]
     pad = self.ch(["valid", "same"])
